@@ -5,7 +5,7 @@ import nslgen, ircoq
 from common import coq_list
 
 HEADER = """From Coq Require Import String ZArith List Bool PrimFloat.
-From NSL Require Import Base.Util Base.Types Base.Syntax Model.PyNum Model.IR Model.VM Model.PyTree Spec.RefSem Harness.RunLib Harness.FragLib Harness.FwdLib Harness.FragLib2 Harness.HistLib Harness.FlowLib Harness.FlowLib2 Harness.FwdFlowLib Harness.HistLib2 Harness.CCLib.
+From NSL Require Import Base.Util Base.Types Base.Syntax Model.PyNum Model.IR Model.VM Model.PyTree Spec.RefSem Harness.RunLib Harness.FragLib Harness.FwdLib Harness.FragLib2 Harness.HistLib Harness.FlowLib Harness.FlowLib2 Harness.FwdFlowLib Harness.HistLib2 Harness.CCLib Harness.LoopLib Harness.HistLib3.
 Import ListNotations.
 Open Scope Z_scope.
 Definition fuel : nat := Z.to_nat 60000.
